@@ -12,8 +12,8 @@ from ..observe import arun as _arun
 
 ID = "C15"
 LEVEL = "exploration"
-BUDGET = {"quick": 640, "thorough": 20000}
-SHARDS = {"quick": 8, "thorough": 16}
+BUDGET = {"quick": 1920, "thorough": 20000}
+SHARDS = {"quick": 16, "thorough": 16}
 RULE = (
     "Hypothesis-generated shapes: a level has 1-5 independent function nodes (async def, plain def returning a coroutine, or plain "
     "sync), 0-2 nested graph nodes (recursively, depth <= 3) and optionally a mapping graph node (fan-out 1-4 over an inner level), "
